@@ -64,3 +64,18 @@ pub proof fn lemma_syntax_to_wf(e: Expression, ids: Ids)
         _ => {},
     }
 }
+
+// ---- C13: a rule's own examples
+pub open spec fn rule_wf(r: Rule) -> bool {
+    solvable(r.detection.expression) && wf(r.detection.expression, r.detection.identifiers@) && ids_wf(r.detection.identifiers@)
+}
+pub open spec fn verdict(r: Rule, d: DocM) -> bool {
+    sem3(r.detection.expression, r.detection.identifiers@, d) == SolverResult::True
+}
+// verdict on an example document; None when the example is not a mapping (malformed)
+pub open spec fn example_verdict(r: Rule, y: Yaml) -> Option<bool> {
+    match yaml_as_mapping(&y) {
+        Some(m) => Some(verdict(r, DocM::Obj(mapping_obj(&m)))),
+        None => None,
+    }
+}
